@@ -96,6 +96,24 @@ fn gen_base(r: &mut Prng, big: bool) -> Base {
         let s = if r.chance(1, 2) { call("seen", vec![]) } else { bin("=", rf("w"), call("seen", vec![])) };
         stmts.insert(at, s);
     }
+    if r.chance(1, 6) {
+        // unusual but legal names: the single underscore, and a dotted name whose head is bound to a map
+        // that holds a key spelled like the tail (a dot is an ordinary name character, not a path)
+        let name = if r.chance(1, 2) {
+            "_"
+        } else {
+            case.slots[0].vars.push(("o".into(), Val::Map(vec![(Val::s("k"), Val::int(1))])));
+            "o.k"
+        };
+        if r.chance(1, 2) {
+            stmts.insert(0, bin("=", rf("w"), rf(name)));
+        }
+        let at = r.usize(stmts.len() + 1);
+        stmts.insert(at, bin("=", rf(name), lit_i(r.range(2, 9))));
+        let at2 = at + 1 + r.usize(stmts.len() - at);
+        stmts.insert(at2, if r.chance(1, 2) { rf(name) } else { bin("+=", rf(name), lit_i(1)) });
+        stmts.push(rf(name));
+    }
     Base { case, stmts, parse_exec: r.chance(1, 2) }
 }
 
